@@ -13,6 +13,8 @@ import (
 	"runtime"
 	"sort"
 	"sync"
+	"sync/atomic"
+	"time"
 
 	"github.com/go-faster/errors"
 
@@ -89,7 +91,11 @@ type mock struct {
 	finalOff int64         // offset of the final (short or empty) block
 	final    chan struct{} // closed when the final block has been written (non-empty) / answered (empty)
 	finalOne sync.Once
-	odd      []string // requests that the API does not allow
+	// liveness guards of a held retry, see UploadGetFile
+	answeredGuard chan struct{}
+	answeredOne   sync.Once
+	guardFired    atomic.Bool
+	odd           []string // requests that the API does not allow
 }
 
 func (m *mock) finalDone() { m.finalOne.Do(func() { close(m.final) }) }
@@ -114,11 +120,21 @@ func (m *mock) UploadGetFile(ctx context.Context, r *tg.UploadGetFileRequest) (t
 	m.mu.Unlock()
 	if r.Offset == m.holdOff && a >= 1 {
 		// hold this retry until the end of the file has gone through (no timing: channel + yields)
+		// Liveness guards (never part of the oracle, never fire on a correct downloader): if the final block was
+		// answered but is not written within 300 ms (a broken downloader dropped it), or nothing happens for 3 s,
+		// the retry is answered anyway and the case is judged like any other, labelled hold-released-by-guard.
+		guard := time.NewTimer(3 * time.Second)
 		select {
 		case <-m.final:
+		case <-m.answeredGuard:
+			m.guardFired.Store(true)
+		case <-guard.C:
+			m.guardFired.Store(true)
 		case <-ctx.Done():
+			guard.Stop()
 			return nil, ctx.Err()
 		}
+		guard.Stop()
 		for i := 0; i < 64; i++ {
 			runtime.Gosched()
 		}
@@ -128,6 +144,9 @@ func (m *mock) UploadGetFile(ctx context.Context, r *tg.UploadGetFileRequest) (t
 	}
 	if r.Offset == m.finalOff && m.size%int64(m.ps) == 0 {
 		defer m.finalDone() // empty final block: nothing will be written for it
+	}
+	if r.Offset == m.finalOff && m.holdOff >= 0 {
+		m.answeredOne.Do(func() { time.AfterFunc(300*time.Millisecond, func() { close(m.answeredGuard) }) })
 	}
 	n := 0
 	if r.Offset < m.size && r.Limit > 0 {
@@ -214,7 +233,7 @@ func (s *sink) WriteAt(p []byte, off int64) (int, error) {
 
 func evalDownload(w wDown) kit.Result {
 	m := &mock{size: w.Size, ps: w.PartSize, window: w.PartSize, faults: map[[2]int]string{}, attempts: map[int64]int{},
-		holdOff: -1, finalOff: w.Size / int64(w.PartSize) * int64(w.PartSize), final: make(chan struct{})}
+		holdOff: -1, finalOff: w.Size / int64(w.PartSize) * int64(w.PartSize), final: make(chan struct{}), answeredGuard: make(chan struct{})}
 	if w.HoldSet {
 		if w.Mode != "parallel" || w.Threads < 2 || w.Verify || int64(w.Hold)*int64(w.PartSize) >= m.finalOff {
 			panic("hold needs a parallel download with >= 2 threads and a held part before the final one")
@@ -296,6 +315,9 @@ func evalDownload(w wDown) kit.Result {
 	out := pre + w.Mode
 	if w.HoldSet {
 		out += "/held-retry"
+		if m.guardFired.Load() {
+			out += "/hold-released-by-guard"
+		}
 	}
 	if fatal > 0 {
 		out += "/exact-file-despite-fatal-answer"
@@ -358,7 +380,7 @@ func main() {
 			"the written ranges are exactly [0,size) with no byte written twice, reported type = the type every answer carried.")
 		c.Assume("default goroutine schedule only; the <=2-preemption interleaving part of the plan needs the controlled scheduler and is not covered here; " +
 			"the mock answers requests beyond the end of the file with an empty block; in (5) the enforced order is 'final block written (empty final block: answered) " +
-			"before the held retry is answered'; the few instructions between a worker's hand-over of the final block and its end-of-file signal are not controlled (a miss is possible there, a false alarm is not); clock.System is replaced by an instant clock so FLOOD_WAIT does not sleep")
+			"before the held retry is answered'; the few instructions between a worker's hand-over of the final block and its end-of-file signal are not controlled (a miss is possible there, a false alarm is not); a held retry has wall-clock liveness guards (300 ms after the final answer, 3 s overall) that only release the hold - they never fire on the unchanged tree and are not part of any oracle; clock.System is replaced by an instant clock so FLOOD_WAIT does not sleep")
 
 		type mt struct {
 			mode string
